@@ -101,7 +101,7 @@ def generate(rng, tier, k):
                 break
         rnd["B"] = B
         if ftype != 8 and rng.random() < 0.2:
-            shift = rng.choice((0, 1, 2, 3, 5))
+            shift = rng.choice((0, 1, 2, 3, 5, 8, 12, 13, 14, 15))
         rnd["shift"] = shift
         blocks = []
         for c in range(nchan):
